@@ -658,6 +658,29 @@ fn round_blocking(rt: &tokio::runtime::Runtime, seed: u64, hb: &Heartbeat, tot: 
         let (a, sh2) = (a.clone(), sh.clone());
         rt.spawn(async move { send_blocking(&sh2, Ctx::Client(12), 0, &a, BKind::AskTo(3), Body::plain(uid())) })
     };
+    // 4b. ... and from async code running on a *current-thread* runtime (whose only thread is blocked by the call)
+    for kind in [BKind::TellTo(3), BKind::AskTo(3)] {
+        let (a2, sh2) = (a.clone(), sh.clone());
+        let (tx, rx) = std::sync::mpsc::channel();
+        std::thread::spawn(move || {
+            let ct = tokio::runtime::Builder::new_current_thread().enable_time().build().unwrap();
+            let r = ct.block_on(async { send_blocking(&sh2, Ctx::Client(13), 0, &a2, kind, Body::plain(uid())) });
+            let _ = tx.send(r);
+        });
+        *o.entry("C17.inside_runtime").or_default() += 1;
+        match rx.recv_timeout(Duration::from_secs(10)) {
+            Ok((res, _)) => {
+                if res != Res::Timeout {
+                    v.push(("C17.inside_runtime".into(), format!("{kind:?} from async code on a current-thread runtime against a full mailbox returned {res:?}")));
+                }
+            }
+            Err(_) => {
+                if hb.max_late_since(bucket0) < STALL_US {
+                    v.push(("C17.deadline".into(), format!("[ct-runtime] {kind:?} called from async code on a current-thread runtime did not return within 10 s of its 3 ms timeout")));
+                }
+            }
+        }
+    }
     for t in ths {
         let (kind, res, el) = t.join().unwrap();
         *o.entry("C17.deadline").or_default() += 1;
@@ -1176,6 +1199,47 @@ pub fn cmd_mt(a: &Args) -> i32 {
                     });
                     rt.shutdown_timeout(Duration::from_secs(2));
                 }
+            }
+            "slow" => {
+                // handlers that take longer than one second of wall time (metrics must not lose whole seconds)
+                let rt = tokio::runtime::Builder::new_multi_thread().worker_threads(4).enable_time().build().unwrap();
+                let durs: Vec<u64> = if secs >= 20 { vec![1_050_000, 2_300_000, 30_000, 999_000] } else { vec![1_050_000, 30_000] };
+                rt.block_on(async {
+                    let mut hs = vec![];
+                    for (k, d) in durs.iter().enumerate() {
+                        let (tot, hb, tainted, prop, d) = (tot.clone(), hb.clone(), tainted.clone(), prop.clone(), *d);
+                        hs.push(tokio::spawn(async move {
+                            let seed = mix(base, 0x510 + k as u64);
+                            let sh = Shared::new(1, 1, false, false, seed);
+                            let spec = ActorSpec { cap: Some(4), start: HookScript::default(), run: vec![], stop: HookScript::default(), in_peers: false };
+                            let (rf, jh) = spawn_sa(&sh, 0, &spec);
+                            sh.model_add(0, 1, "spawner");
+                            let w = tokio::spawn(watch(sh.clone(), 0, jh));
+                            let h = H::D(rf.clone());
+                            let bucket0 = hb.now_bucket();
+                            send_via(&sh, Ctx::Client(0), 0, &h, SendKind::Tell, MTy::U, Body { uid: uid(), flags: 0, steps: vec![Step::Busy(500)] }).await;
+                            send_via(&sh, Ctx::Client(0), 0, &h, SendKind::Ask, MTy::U, Body { uid: uid(), flags: 0, steps: vec![Step::Busy(d)] }).await;
+                            send_via(&sh, Ctx::Client(0), 0, &h, SendKind::Ask, MTy::S, Body { uid: uid(), flags: 0, steps: vec![Step::Busy(200)] }).await;
+                            stop_via(&sh, Ctx::Main, 0, &h).await;
+                            let _ = w.await;
+                            #[cfg(feature = "f_metrics")]
+                            crate::sim::metrics_event(&sh, 0, &rf, "survivor-strong");
+                            drop(h);
+                            drop(rf);
+                            sh.model_add(0, -1, "drop");
+                            let ids = sh.ids.lock().unwrap().clone();
+                            let out = RoundOut { log: sh.log.snapshot(), ids: ids.clone(), caps: vec![4], hung_clients: 0, hung_actors: 0, stalled: hb.max_late_since(bucket0) > STALL_US };
+                            for id in ids.iter() {
+                                reg_remove(*id);
+                            }
+                            absorb(&tot, &prop, "slow", seed, &out, &tainted);
+                        }));
+                    }
+                    for h in hs {
+                        let _ = h.await;
+                    }
+                });
+                rt.shutdown_timeout(Duration::from_secs(2));
             }
             "blocking" => {
                 let rt = tokio::runtime::Builder::new_multi_thread().worker_threads(8).max_blocking_threads(256).enable_time().build().unwrap();
